@@ -2,42 +2,35 @@ use rust_dsymbols::delaney3d::pseudo_toroidal_cover;
 use rust_dsymbols::dsets::DSet;
 use std::time::Instant;
 use verif_harness::d3gen::*;
-use verif_harness::dsgen::Tab;
 fn main() {
-    let b = parse_symbol("<1.1:4:2 4,3 4,2 4:8,4>").unwrap();
-    let id: Vec<usize> = (0..=4).collect();
-    let p = mirror_prisms(&b, &id).unwrap();
-    let w = parse_symbol("<1.1:12 3:2 4 6 8 9 10 11 12,3 4 9 10 11 12,5 6 7 8 11 12,1 2 3 4 6 8 10 12:8 4 4,3 3,4 4 4>").unwrap();
-    println!("m6 witness equal: {} in_domain {}", p == w, in_domain_3d(&p));
-    let l = parse_symbol("<1.1:6:2 5 6,3 4 6,2 5 6:3,6>").unwrap();
-    let tau = vec![0, 4, 6, 2, 5, 1, 3];
-    let q = stacked_prisms(&l, &tau).unwrap();
-    let w7 = parse_symbol("<1.1:36 3:2 5 6 8 11 12 31 32 33 34 35 36 20 23 24 26 29 30,3 4 6 13 14 15 16 17 18 21 22 24 31 32 33 34 35 36,7 8 9 10 11 12 15 16 18 25 26 27 28 29 30 33 34 36,22 24 20 23 19 21 8 11 12 14 17 18 26 29 30 32 35 36:3 4 4 4 3,3 3 3 3 3 3,4 4 4 6 6>").unwrap();
-    println!("m7 witness equal: {} in_domain {}", q == w7, in_domain_3d(&q));
-    println!("auts of layer: {}", automorphisms(&l).len());
-    for n in 1..=6 {
+    let stride: usize = std::env::args().nth(1).unwrap().parse().unwrap();
+    let mut k = 0usize;
+    for n in 1..=4 {
         let sets = if n <= 3 { labelled(2, n) } else { classes(2, n) };
-        let (mut nsym, mut neuc, mut nmir, mut nstack, mut nstack_e) = (0, 0, 0, 0, 0);
-        let t0 = Instant::now();
-        let mut tptc = 0.0;
-        let mut found = 0;
+        // class: 0 spherical(K>0) 1 euclid 2 hyperbolic ; kind: 0 mirror 1 stack
+        let mut cnt = [[0usize; 2]; 3];
+        let mut tm = [[0f64; 2]; 3];
+        let mut mx = [[0f64; 2]; 3];
+        let mut found = [[0usize; 2]; 3];
         for t in &sets {
             for s in symbols_2d_cryst(t) {
-                nsym += 1;
-                let e = euclidean2(&s);
-                if e { neuc += 1; }
+                let (a, _b) = curvature2(&s);
+                let c = if a > 0 { 0 } else if a == 0 { 1 } else { 2 };
                 for (lab, p) in prisms_over(&s, 6, true) {
-                    if lab.starts_with("mirror") { nmir += 1 } else { nstack += 1; if e { nstack_e += 1 } }
-                    if n <= 4 || e {
-                        let t1 = Instant::now();
-                        let r = std::panic::catch_unwind(|| pseudo_toroidal_cover(&p.to_partial_dsym()).map(|c| c.size()));
-                        tptc += t1.elapsed().as_secs_f64();
-                        if let Ok(Some(_)) = r { found += 1; if !e { println!("NON-EUCLIDEAN base with cover: {} {}", lab, p.enc()); } }
-                        if let Ok(None) = r { if e { println!("EUCLIDEAN base without cover: {} {}", lab, p.enc()); } }
-                    }
+                    let kind = if lab.starts_with("mirror") { 0 } else { 1 };
+                    cnt[c][kind] += 1;
+                    k += 1;
+                    if k % stride != 0 { continue; }
+                    let t1 = Instant::now();
+                    let r = std::panic::catch_unwind(|| pseudo_toroidal_cover(&p.to_partial_dsym()).map(|c| c.size()));
+                    let e = t1.elapsed().as_secs_f64();
+                    tm[c][kind] += e;
+                    if e > mx[c][kind] { mx[c][kind] = e; }
+                    if let Ok(Some(_)) = r { found[c][kind] += 1; }
+                    if r.is_err() { println!("PANIC {} {}", lab, p.enc()); }
                 }
             }
         }
-        println!("n={} sets={} syms={} euc={} mirror={} stack={} stack_euc={} found={} ptc_time={:.1}s total={:.1}s", n, sets.len(), nsym, neuc, nmir, nstack, nstack_e, found, tptc, t0.elapsed().as_secs_f64());
+        println!("n={} sets={} counts(sph,euc,hyp x mirror,stack)={:?} sampled_time={:?} max={:?} found={:?}", n, sets.len(), cnt, tm, mx, found);
     }
 }
